@@ -1,5 +1,11 @@
 open Datatypes
 
+(** val tl : 'a1 list -> 'a1 list **)
+
+let tl = function
+| [] -> []
+| _ :: m -> m
+
 (** val nth : nat -> 'a1 list -> 'a1 -> 'a1 **)
 
 let rec nth n l default =
@@ -88,17 +94,17 @@ let rec filter f = function
 
 let rec find f = function
 | [] -> None
-| x :: tl -> if f x then Some x else find f tl
+| x :: tl0 -> if f x then Some x else find f tl0
 
 (** val combine : 'a1 list -> 'a2 list -> ('a1 * 'a2) list **)
 
 let rec combine l l' =
   match l with
   | [] -> []
-  | x :: tl ->
+  | x :: tl0 ->
     (match l' with
      | [] -> []
-     | y :: tl' -> (x, y) :: (combine tl tl'))
+     | y :: tl' -> (x, y) :: (combine tl0 tl'))
 
 (** val firstn : nat -> 'a1 list -> 'a1 list **)
 
